@@ -361,6 +361,208 @@ Section TS.
         unfold v2_freqs. rewrite Hh. cbn [h_mult v2_of f_records]. rewrite freqs_of_records. exact Hasc.
   Qed.
 
+  (* save_denotes, Touchstone 2: up to line breaks the stream written IS the stream TsSpec prescribes for the abstract
+     version-2 file of the object, and that file is well formed *)
+  Lemma ts2_save_denotes_lemma : forall o ft0 promote fmt,
+    conv_keeps_length -> mobj_wf o -> wf_obj (sobj_of E o ft0 promote fmt) = true ->
+    cksave (sobj_of E o ft0 promote fmt) = true -> final_filetype (sobj_of E o ft0 promote fmt) = TS2 -> freqs_readable o ->
+    exists st e, resolved (sobj_of E o ft0 promote fmt) = [e] /\ save_emit E o ft0 promote fmt = STouchstone st /\
+                 strip st = strip (v2_stream (v2_of o e)) /\ v2_wf (v2_of o e).
+  Proof.
+    intros o ft0 promote fmt Hconv Hwf Hwfo Hck Hfin Hfr.
+    set (s := sobj_of E o ft0 promote fmt) in *.
+    assert (Hnpd : o_filetype s <> NPD).
+    { intro X. unfold final_filetype in Hfin. rewrite X in Hfin. discriminate. }
+    destruct (cksave_ts_facts s Hwfo Hck Hnpd) as [e F].
+    destruct F as (Hres & Hpar & Hform & Hmat & Hpf & Hrp & Hrows & Hp1 & Hf0 & H2p & _).
+    change (o_rows s) with (m_rows o) in *. change (o_ports s) with (m_ports o) in *.
+    change (o_type s) with (m_type o) in *. change (o_freqs s) with (length (m_freqs o)) in *.
+    eexists. exists e. split; [exact Hres |]. split.
+    { unfold save_emit. fold s. rewrite Hfin, Hres. cbn [hd print_obj]. reflexivity. }
+    split.
+    { unfold ts_header, v2_stream. cbn [app].
+      cbn [f_opts f_ports f_order f_nfreq f_matrix f_ref f_records f_end v2_of i_text].
+        cbn [render_opts ts_opts flat_map render_ofield app negb].
+        unfold nl, TsSpec.nl.
+        destruct (m_rows o =? 2); destruct (ts_mixed_z0 E o);
+          repeat (rewrite ?strip_app, ?strip_cons, ?strip_nil); cbn [is_nlf app];
+          rewrite ?strip_records, ?strip_map_word, ?strip_words, ?map_map, ?app_nil_r, <- ?app_assoc; cbn [app]; reflexivity. }
+    assert (Hn : f_n (v2_of o e) = m_rows o) by (unfold f_n; cbn; apply Nat2Z.id).
+      assert (Hh : opts_hdr true (f_opts (v2_of o e)) =
+                   mkhdr true (qcz 1) (ts_ptype (e_par e)) (ts_dfmt (e_form e)) (rd (m_dprec o) (fst (hd (c0 E) (m_z0 o)))) (-1) None (-1) (-1) MFull None).
+      { cbn [v2_of f_opts]. unfold opts_hdr, ts_opts. cbn [fold_left apply_ofield pnum n_val].
+        destruct Hpar as [P | [P | [P | [P | P]]]]; rewrite P; destruct (e_form e); try discriminate Hform; reflexivity. }
+      destruct Hwf as (Hz & Hd & Hm & Hr46 & Hnf).
+      destruct (convert_obj_wf o (e_par e) Hconv (conj Hz (conj Hd (conj Hm (conj Hr46 Hnf)))) Hmat) as [Hcl Hcm].
+      { destruct Hpar as [P | [P | [P | [P | P]]]]; rewrite P; reflexivity. }
+      destruct Hfr as [Hfnn Hasc].
+      assert (Hpos : forall z, In z (firstn (m_rows o) (m_z0 o)) -> xle (rd (m_dprec o) (fst z)) xq0 = false).
+      { intros z Hin. apply rd_sign. unfold s, sobj_of, z0_real_pos in Hrp. cbn [o_z0_real_pos] in Hrp.
+        rewrite forallb_forall in Hrp. rewrite Hrows in Hin. specialize (Hrp z Hin).
+        apply andb_prop in Hrp as [_ Hrp]. destruct (xle (v_val E (fst z)) xq0); [discriminate | reflexivity]. }
+      unfold v2_wf. rewrite Hh, Hn. cbn [h_type h_mult v2_of f_opts f_ports f_order f_nfreq f_ref f_records i_val i_text].
+        split.
+        { unfold ts_opts. constructor; [exact I |]. constructor; [cbn; destruct (e_par e); exact I |].
+          constructor; [cbn; destruct (e_form e); exact I |]. constructor; [| constructor]. split; [apply pnum_ok |].
+          unfold positive_x. cbn [pnum n_val]. destruct (m_z0 o) as [| z0 zr] eqn:Ez; [simpl in Hz; lia |].
+          apply (Hpos z0). destruct (m_rows o); [lia |]. left. reflexivity. }
+        cbn [i_val i_text]. split; [unfold inum_ok; cbn [i_val i_text]; apply itext_int; lia |]. split; [lia |].
+        split.
+        { split; intro X.
+          - assert (m_rows o = 2) by lia. rewrite H. discriminate.
+          - destruct (Nat.eqb_spec (m_rows o) 2) as [Y | Y]; [lia | congruence]. }
+        split.
+        { intro X. rewrite Hrows. rewrite H2p; [reflexivity |].
+          destruct Hpar as [P | [P | [P | [P | P]]]]; rewrite P in *; try discriminate X; reflexivity. }
+        split; [unfold inum_ok; cbn [i_val i_text]; apply itext_int; lia |]. split; [rewrite map_i_length; reflexivity |].
+        split.
+        { destruct (ts_mixed_z0 E o); [| exact I]. split.
+          - rewrite map_length, firstn_length, Hz, Hrows. lia.
+          - apply Forall_forall. intros n Hin. apply in_map_iff in Hin. destruct Hin as (z & <- & Hin).
+            split; [apply pnum_ok | apply (Hpos z Hin)]. }
+        split.
+        { apply Forall_map_i. intros k fq Hin. unfold rec_of. cbn [fst snd pnum n_val].
+          split; [apply pnum_ok |]. split; [rewrite Forall_forall in Hfnn; apply Hfnn; exact Hin |].
+          split; [apply cell_nums_ok |]. rewrite cell_nums_length. unfold f_pairs, f_mf. rewrite Hn. cbn [v2_of f_matrix]. rewrite Hrows. reflexivity. }
+        unfold v2_freqs. rewrite Hh. cbn [h_mult v2_of f_records]. rewrite freqs_of_records. exact Hasc.
+  Qed.
+
+
+
+  (* ======== Touchstone 1 ======================================================================================= *)
+  Definition ts1_z0t (o : mobj D) : D := fst (hd (c0 E) (m_z0 o)).
+  (* o: the object saved; p: the object printed from (print_obj: o itself or its normalised copy) *)
+  Definition v1_of (o p : mobj D) (e : entry) : v1file :=
+    mkv1file (ts_opts p e (ts1_z0t o)) (m_ports o)
+             (map_i (rec_of p (m_ports o) (m_ports o) (e_form e) (Nat.eqb (m_ports o) 2) (convert_obj E p (e_par e))) 0 (m_freqs o))
+             [].
+  Definition ts1_hdr (o p : mobj D) (e : entry) : hdr :=
+    mkhdr false (qcz 1) (ts_ptype (e_par e)) (ts_dfmt (e_form e)) (rd (m_dprec p) (ts1_z0t o)) (-1) None (-1) (-1) MFull None.
+  (* the object the version-1 loader returns: the cells as read, un-normalised by R as the loader does *)
+  Definition ts1_loaded (o p : mobj D) (e : entry) : tsobj :=
+    mkobj false (ts_ptype (e_par e)) (ts_dfmt (e_form e)) (m_ports o)
+      (map (rd (m_fprec p)) (m_freqs o))
+      (repeat (rd (m_dprec p) (ts1_z0t o)) (m_ports o))
+      (map (fun m => unnormalise (ts1_hdr o p e) (map (loaded_cell p (e_form e)) m)) (convert_obj E p (e_par e))).
+
+  Lemma ts1_records_lines : forall p n e data fs i, 1 <= n <= 4 -> ri_ma_db (e_form e) = true ->
+    concat (map_i (ts_record E true p n n e data) i fs) =
+    flat_map (v1_record_lines n) (map_i (rec_of p n n (e_form e) (Nat.eqb n 2) data) i fs).
+  Proof.
+    intros p n e data fs. induction fs as [| fq fs IH]; intros i Hn Hf; [reflexivity |].
+    cbn [map_i concat flat_map]. rewrite IH by assumption. f_equal.
+    assert (C : n = 1 \/ n = 2 \/ n = 3 \/ n = 4) by lia.
+    destruct e as [ep ef]; cbn [e_form] in *. destruct C as [-> | [-> | [-> | ->]]]; destruct ef; try discriminate Hf; reflexivity.
+  Qed.
+
+  Lemma v1_cells_cell_nums : forall p n f m, 1 <= n <= 4 -> length m = n * n ->
+    v1_cells n (map n_val (cell_nums p n n f (Nat.eqb n 2) m)) = map (loaded_cell p f) m.
+  Proof.
+    intros p n f m Hn Hl. destruct (Nat.eq_dec n 2) as [-> | Hne].
+    - destruct m as [| a [| b [| c [| d [| x m]]]]]; try discriminate Hl. destruct f; reflexivity.
+    - rewrite v1_cells_other by exact Hne. replace (Nat.eqb n 2) with false by (symmetry; apply Nat.eqb_neq; exact Hne).
+      apply pairs_of_cell_nums. exact Hl.
+  Qed.
+
+  Lemma records_cells1 : forall p h n f data fs i, 1 <= n <= 4 -> Forall (fun m => length m = n * n) data -> i + length fs = length data ->
+    map (fun r => unnormalise h (v1_cells n (map n_val (snd r)))) (map_i (rec_of p n n f (Nat.eqb n 2) data) i fs) =
+    map (fun m => unnormalise h (map (loaded_cell p f) m)) (skipn i data).
+  Proof.
+    intros p h n f data fs. induction fs as [| fq fs IH]; intros i Hn Hd Hl.
+    - cbn. rewrite skipn_all2 by (simpl in Hl; lia). reflexivity.
+    - cbn [map_i map]. cbn [length] in Hl. assert (Hi : i < length data) by lia.
+      rewrite IH by (assumption || lia). rewrite (skipn_nth_cons _ i data []) by exact Hi. cbn [map]. f_equal.
+      unfold rec_of. cbn [snd]. rewrite v1_cells_cell_nums; [reflexivity | exact Hn |].
+      rewrite Forall_forall in Hd. apply Hd. apply nth_In. exact Hi.
+  Qed.
+
+  (* the object printed from keeps shape, frequencies and precisions, and is a sized matrix object *)
+  Lemma print_obj_facts : forall o, conv_keeps_length -> mobj_wf o -> is_matrix (m_type o) = true ->
+    let p := print_obj E TS1 o in
+    m_rows p = m_rows o /\ m_ports p = m_ports o /\ m_freqs p = m_freqs o /\ m_fprec p = m_fprec o /\ m_dprec p = m_dprec o /\
+    is_matrix (m_type p) = true /\ mobj_wf p.
+  Proof.
+    intros o Hc Hwf Hm. cbn zeta. unfold print_obj. destruct (is_one E (hd (c0 E) (m_z0 o))).
+    - repeat split; try reflexivity; try assumption; apply Hwf.
+    - unfold normalise. cbn [m_rows m_ports m_freqs m_fprec m_dprec m_type].
+      assert (Ht : is_matrix (norm_target (m_type o)) = true) by (destruct (m_type o); reflexivity).
+      destruct (convert_obj_wf o (norm_target (m_type o)) Hc Hwf Hm Ht) as [A B].
+      destruct Hwf as (Hz & Hd & Hdm & H46 & Hnf).
+      repeat split; try reflexivity; try assumption.
+      unfold mobj_wf. cbn [m_z0 m_data m_rows m_ports m_freqs]. rewrite repeat_length. repeat split; assumption.
+  Qed.
+
+  Lemma opts_hdr_v1 : forall o p e, (e_par e = PS \/ e_par e = PZ \/ e_par e = PY \/ e_par e = PH \/ e_par e = PG) ->
+    ri_ma_db (e_form e) = true -> opts_hdr false (ts_opts p e (ts1_z0t o)) = ts1_hdr o p e.
+  Proof.
+    intros o p e Hpar Hform. unfold opts_hdr, ts_opts, ts1_hdr. cbn [fold_left apply_ofield pnum n_val].
+    destruct Hpar as [P | [P | [P | [P | P]]]]; rewrite P; destruct (e_form e); try discriminate Hform; reflexivity.
+  Qed.
+
+  Theorem ts1_load_save_lemma : forall o ft0 promote fmt,
+    conv_keeps_length -> mobj_wf o -> wf_obj (sobj_of E o ft0 promote fmt) = true ->
+    cksave (sobj_of E o ft0 promote fmt) = true -> final_filetype (sobj_of E o ft0 promote fmt) = TS1 -> freqs_readable o ->
+    exists st e, resolved (sobj_of E o ft0 promote fmt) = [e] /\ save_emit E o ft0 promote fmt = STouchstone st /\
+                 st = v1_stream (v1_of o (print_obj E TS1 o) e) /\ v1_wf (v1_of o (print_obj E TS1 o) e) /\
+                 parse st = Ok (ts1_loaded o (print_obj E TS1 o) e).
+  Proof.
+    intros o ft0 promote fmt Hconv Hwf Hwfo Hck Hfin Hfr.
+    set (s := sobj_of E o ft0 promote fmt) in *.
+    assert (Hft : o_filetype s = TS1).
+    { unfold final_filetype in Hfin. destruct (o_filetype s); try discriminate; reflexivity. }
+    assert (Hnpd : o_filetype s <> NPD) by (rewrite Hft; discriminate).
+    destruct (cksave_ts_facts s Hwfo Hck Hnpd) as [e F].
+    destruct F as (Hres & Hpar & Hform & Hmat & Hpf & Hrp & Hrows & Hp1 & Hf0 & H2p & H1).
+    destruct (H1 Hft) as [H4 Heq].
+    assert (Hp4 : o_ports s <= 4).
+    { destruct H4 as [H4 | H4]; [exact H4 |]. unfold final_filetype in Hfin. rewrite Hft, H4 in Hfin. cbn [andb] in Hfin.
+      destruct (4 <? o_ports s) eqn:X; cbn [orb] in Hfin; [discriminate |]. apply Nat.ltb_ge in X. exact X. }
+    change (o_rows s) with (m_rows o) in *. change (o_ports s) with (m_ports o) in *.
+    change (o_type s) with (m_type o) in *. change (o_freqs s) with (length (m_freqs o)) in *.
+    destruct (print_obj_facts o Hconv Hwf Hmat) as (Pr & Pp & Pf & Pfp & Pdp & Pm & Pwf).
+    set (p := print_obj E TS1 o) in *.
+    assert (Hn : 1 <= m_ports o <= 4) by lia.
+    assert (Hem : is_matrix (e_par e) = true) by (destruct Hpar as [P | [P | [P | [P | P]]]]; rewrite P; reflexivity).
+    destruct (convert_obj_wf p (e_par e) Hconv Pwf Pm Hem) as [Hcl Hcm].
+    rewrite Pf in Hcl. rewrite Pr, Pp, Hrows in Hcm.
+    destruct Hwf as (Hz & Hd & Hm & Hr46 & Hnf). destruct Hfr as [Hfnn Hasc].
+    assert (Hstream : ts_header E false p e (ts1_z0t o) ++
+                      concat (map_i (ts_record E true p (m_rows o) (m_ports o) e (convert_obj E p (e_par e))) 0 (m_freqs o)) ++ [] ++ [REof]
+                      = v1_stream (v1_of o p e)).
+    { unfold v1_stream, v1_of. cbn [g_opts g_ports g_records g_noise flat_map app].
+      rewrite Hrows, ts1_records_lines by assumption. reflexivity. }
+    assert (Hwf1 : v1_wf (v1_of o p e)).
+    { unfold v1_wf, v1_freqs. cbn [v1_of g_opts g_ports g_records g_noise]. rewrite !(opts_hdr_v1 o p e Hpar Hform). cbn [ts1_hdr h_type h_mult].
+      split.
+      { unfold ts_opts. constructor; [exact I |]. constructor; [cbn; destruct (e_par e); exact I |].
+        constructor; [cbn; destruct (e_form e); exact I |]. constructor; [| constructor]. split; [apply pnum_ok |].
+        unfold positive_x. cbn [pnum n_val]. apply rd_sign. unfold ts1_z0t.
+        unfold s, sobj_of, z0_real_pos in Hrp. cbn [o_z0_real_pos] in Hrp. rewrite forallb_forall in Hrp.
+        destruct (m_z0 o) as [| z0 zr] eqn:Ez; [simpl in Hz; lia |]. cbn [hd].
+        assert (Hin : In z0 (firstn (m_ports o) (z0 :: zr))) by (destruct (m_ports o); [lia | left; reflexivity]).
+        specialize (Hrp z0 Hin). apply andb_prop in Hrp as [_ Hrp]. destruct (xle (v_val E (fst z0)) xq0); [discriminate | reflexivity]. }
+      split; [exact Hn |].
+      split.
+      { intro X. apply H2p. destruct Hpar as [P | [P | [P | [P | P]]]]; rewrite P in *; try discriminate X; reflexivity. }
+      split.
+      { destruct (m_freqs o); [exfalso; apply Hf0; reflexivity | discriminate]. }
+      split.
+      { apply Forall_map_i. intros k fq Hin. unfold rec_of. cbn [fst snd pnum n_val].
+        split; [apply pnum_ok |]. split; [rewrite Pfp; rewrite Forall_forall in Hfnn; apply Hfnn; exact Hin |].
+        split; [apply cell_nums_ok |]. rewrite cell_nums_length. lia. }
+      split.
+      { rewrite freqs_of_records, Pfp. exact Hasc. }
+      split; [intro X; exfalso; apply X; reflexivity | constructor]. }
+    eexists. exists e. split; [exact Hres |]. split.
+    { unfold save_emit. fold s. rewrite Hfin, Hres. cbn [hd negb]. fold p. reflexivity. }
+    split; [exact Hstream |]. split; [exact Hwf1 |].
+    change (fst (hd (c0 E) (m_z0 o))) with (ts1_z0t o). rewrite Hstream, v1_load_lemma by exact Hwf1.
+    f_equal. unfold v1_result, ts1_loaded, v1_freqs. cbn [v1_of g_opts g_ports g_records]. rewrite !(opts_hdr_v1 o p e Hpar Hform).
+    cbn [ts1_hdr h_type h_fmt h_z0 h_mult]. f_equal.
+    - apply freqs_of_records.
+    - fold (ts1_hdr o p e). rewrite records_cells1; [reflexivity | exact Hn | exact Hcm | rewrite Hcl; reflexivity].
+  Qed.
+
   (* ---- maximum precision / 17 digits: the loaded object IS the saved one ---------------------------------- *)
   Hypothesis num_rt : forall p x, exact_prec p = true -> rd p x = v_val E x.
 
@@ -391,6 +593,28 @@ Section TS.
       + apply map_ext. intro z. apply num_rt. exact Hd.
       + rewrite num_rt by exact Hd. apply mixed_false_z0; assumption.
     - apply map_ext. intro m. apply map_ext. intro v. unfold loaded_cell, exact_cell. rewrite !num_rt by exact Hd. reflexivity.
+  Qed.
+
+  (* Touchstone 1, S parameters (no un-normalisation), maximum precision, RI: the loaded object IS the saved one *)
+  Lemma print_obj_S_data : forall o, m_type o = PS -> convert_obj E (print_obj E TS1 o) PS = m_data o.
+  Proof.
+    intros o Ht. unfold print_obj. destruct (is_one E (hd (c0 E) (m_z0 o))).
+    - unfold convert_obj. rewrite Ht. reflexivity.
+    - unfold normalise, convert_obj. cbn [m_type m_data]. rewrite Ht. reflexivity.
+  Qed.
+
+  Lemma ts1_loaded_exact_S : forall o e, exact_prec (m_fprec (print_obj E TS1 o)) = true -> exact_prec (m_dprec (print_obj E TS1 o)) = true ->
+    m_type o = PS -> e_par e = PS -> e_form e = RI ->
+    ts1_loaded o (print_obj E TS1 o) e =
+    mkobj false TsParse.PS FRI (m_ports o) (map (v_val E) (m_freqs o)) (repeat (v_val E (ts1_z0t o)) (m_ports o))
+          (map (map exact_cell) (m_data o)).
+  Proof.
+    intros o e Hf Hd Ht Hp Hri. unfold ts1_loaded. rewrite Hp, Hri. cbn [ts_ptype ts_dfmt]. rewrite print_obj_S_data by exact Ht.
+    f_equal.
+    - apply map_ext. intro x. apply num_rt. exact Hf.
+    - rewrite num_rt by exact Hd. reflexivity.
+    - apply map_ext. intro m. rewrite unnormalise_S by (unfold ts1_hdr; cbn [h_type]; rewrite Hp; reflexivity). apply map_ext. intro v.
+      unfold loaded_cell, exact_cell. rewrite !num_rt by exact Hd. reflexivity.
   Qed.
 End TS.
 
